@@ -56,11 +56,26 @@ func mkAction(kind string) *ref.Prog {
 	return nil
 }
 
+// Config is one enumerated single-node configuration.
+type Config = config
+
 type config struct {
 	action    string
 	branching string // absent message bindings
 	branches  []shape
 	settings  int
+}
+
+// Spec builds the abstract spec of a configuration.
+func (c config) Spec() *ref.ASpec { return c.spec() }
+
+// Describe returns a compact description.
+func (c config) Describe() interface{} {
+	bl := []interface{}{}
+	for _, b := range c.branches {
+		bl = append(bl, []string{b.pat, b.guard, b.target})
+	}
+	return []interface{}{c.action, c.branching, bl, c.settings}
 }
 
 func (c config) spec() *ref.ASpec {
@@ -126,7 +141,13 @@ func shapes(full bool) []shape {
 	return out
 }
 
-// configs enumerates node configurations; lists of length 0..2.
+// Configs enumerates node configurations; lists of length 0..2.
+func Configs(full bool) []Config { return configs(full) }
+
+// States and Pendings of the enumerated space.
+func States() []ref.AState    { return states }
+func Pendings() []interface{} { return pendings }
+
 func configs(full bool) []config {
 	sh := shapes(full)
 	actions := []string{"", "set", "delemit", "fail", "null"}
